@@ -585,7 +585,7 @@ class Provenance(MutableSequence[Expression]):
         if isinstance(index, int):
             return Expression.from_data(self._data[index], self._units)
         else:
-            return Provenance(units=self._units, data=self._data[index])
+            return Provenance(units=self._units, data=self._data[index].copy())
 
     @overload
     def __setitem__(self, index: int, value: Expression) -> None: ...
